@@ -10,6 +10,7 @@ cube rotations at grid-coincident positions; NaN / error behaviour outside.
 from __future__ import annotations
 
 import itertools
+import os
 
 import numpy as np
 
@@ -82,6 +83,10 @@ def cases(tier, seed):
                                     continue
                                 out.append({"tomo": list(tomo), "rot": rot, "shape": list(shape), "order": order, "scale": scale,
                                             "corner_safe": cs, "array": kind, "seed": seed, "family": "interior"})
+                                if kind == "numpy" and rot in ("cube0", "gen0") and (tier == "thorough" or tuple(shape) in ((3, 3, 3), (4, 4, 4))):
+                                    # the tomogram read lazily from an MRC file through SubtomogramLoader.imread (pixel size taken from the header)
+                                    out.append({"tomo": list(tomo), "rot": rot, "shape": list(shape), "order": order, "scale": scale,
+                                                "corner_safe": cs, "array": "file:mrc", "seed": seed, "family": "interior"})
                                 if rot in SWEEP_ROTS and kind == "numpy":
                                     if tier == "quick" and (scale != 1.0 or shape in ((3, 5, 4), (1, 1, 1))):
                                         continue
@@ -181,8 +186,22 @@ def run_case(case):
             seen.add(s)
             viol.append((s, msg))
 
+    tmpdir = []
+
     def loader_for(img, positions):
         mole = Molecules(np.array(positions) * scale, Rotation.from_matrix(np.array([R] * len(positions))))
+        if case["array"] == "file:mrc":
+            import tempfile
+
+            import mrcfile
+
+            if not tmpdir:
+                tmpdir.append(tempfile.mkdtemp(prefix="vfc02-", dir="/dev/shm"))
+            path = f"{tmpdir[0]}/t{len(os.listdir(tmpdir[0]))}.mrc"
+            with mrcfile.new(path) as f:
+                f.set_data(np.ascontiguousarray(img, dtype=np.float32))
+                f.voxel_size = scale * 10.0
+            return SubtomogramLoader.imread(path, mole, order=order, output_shape=shape, corner_safe=cs, chunks=(7, 8, 9))
         return SubtomogramLoader(_as_array(img, case["array"]), mole, order=order, scale=scale, output_shape=shape, corner_safe=cs)
 
     margin = {0: 0.0, 1: 0.0, 3: 3.0}[order]
@@ -261,5 +280,9 @@ def run_case(case):
     if case["family"] == "interior" and not (np.array_equal(full[2], ld.load(2)) and np.array_equal(full[1:4], ld.load(slice(1, 4))) and np.array_equal(full[[4, 0]], ld.load([4, 0]))
             and all(np.array_equal(a, b) for a, b in zip(full, ld.load_iter())) and np.array_equal(full, ld.construct_dask().compute())):
         add(sig("observers-disagree", "interior"), "load(i), load(slice), load(list), load_iter, asnumpy, construct_dask do not return the same sub-volumes")
+    if tmpdir:
+        import shutil
+
+        shutil.rmtree(tmpdir[0], ignore_errors=True)
     return {"nontrivial": True, "outcome": f"order{order}|cs={cs}|{cls_rot}|{'viol' if viol else 'ok'}", "viol": viol,
             "metrics": {k: float(v) for k, v in stats.items()}}
